@@ -225,7 +225,7 @@ std_check("C12", [("many", 80, 1200), ("backlog", 6, 60), ("evict", 16, 64), ("s
           assumptions=["per-connection integrity on simultaneous connections is judged by the C01 rules on every connection (distinct streams per connection)"])
 std_check("C13", [("many", 80, 1200), ("backlog", 10, 100), ("sockpeer", 24, 300)],
           ["C13.AcceptFifo", "C13.BacklogBound", "C13.RefusedOnlyWhenFull", "C13.ExcessRefused", "C13.ResetMatches",
-           "C13.AcceptReturnsMatched", "C13.AcceptCallOrder", "C13.PairOnce"], model_spec=SOCK_MODEL)
+           "C13.AcceptReturnsMatched", "C13.AcceptCallOrder", "C13.PairOnce", "C13.NotStarved"], model_spec=SOCK_MODEL)
 std_check("C14", [("mtu", 60, 1000), ("xfer", 20, 200), ("hostile", 20, 200), ("probe_loss", 40, 400), ("peer_send", 40, 400)],
           ["C14.NeverAboveLink", "C14.OrdinaryWithinProven", "C14.OneProbe", "C14.Converges", "C14.LogProbes"],
           parts=[("mtu", None), ("segs", ["C14."])])
